@@ -37,7 +37,7 @@ pub const BUILTINS: &[&str] = &[
 ];
 /// boundary argument values
 pub const ARGS: &[&str] = &[
-    "-1", "0", "1", "3", "2147483647", "-2147483648", "1/2", "-7/2", "1.5", "-0.0", "1e38", "\"\"", "\"s\"", "#\\a", "'a", "'()", "'(1 2)", "'(1 . 2)", "'((1) (2))", "(vector)", "(vector 1 2)", "'#(1)",
+    "-1", "0", "1", "3", "2147483647", "-2147483648", "1/2", "-7/2", "-2147483648/3", "2147483647/2", "1/2147483647", "1.5", "-0.0", "1e38", "\"\"", "\"s\"", "#\\a", "'a", "'()", "'(1 2)", "'(1 . 2)", "'((1) (2))", "(vector)", "(vector 1 2)", "'#(1)",
     "car", "(lambda (p) p)", "(lambda (p q) (list p q))", "#t", "#f",
 ];
 
